@@ -519,7 +519,7 @@ let rec run toks =
     lstep_do (LCreateForest (nat_of_int did));
     Hashtbl.replace forest_ids fnm fid;
     if List.mem "showfid=1" toks then emit (Printf.sprintf "forest fid=%d" fid)
-  | "coll" :: a :: fn :: mode :: dv :: rest when (try (get_forest fn).lab = EVP with _ -> false) ->
+  | "coll" :: a :: fn :: mode :: dv :: rest when (try (let l = (get_forest fn).lab in l = EVP || l = EVT) with _ -> false) ->
     Hashtbl.remove edges a; Hashtbl.remove evtabs a;
     let f = get_forest fn in
     let rec mts toks acc = match toks with
@@ -535,7 +535,7 @@ let rec run toks =
     let l = nat_of_int (nlev f) in
     let tb = List.map (fun x -> int_of_z (build_spec comb (z_of_int (ev_value dv)) l ms x)) (all_asg (szf f) l) in
     Hashtbl.replace evtabs a (fn, tb); show_ev a
-  | "minterm" :: a :: fn :: dv :: v :: ":" :: rest when (try (get_forest fn).lab = EVP with _ -> false) ->
+  | "minterm" :: a :: fn :: dv :: v :: ":" :: rest when (try (let l = (get_forest fn).lab in l = EVP || l = EVT) with _ -> false) ->
     Hashtbl.remove edges a; Hashtbl.remove evtabs a;
     let f = get_forest fn in
     let (ps, _) = parse_positions f rest in
@@ -543,7 +543,7 @@ let rec run toks =
     let tb = List.map (fun x -> int_of_z (build_spec zmax (z_of_int (ev_value dv)) l [(ps, z_of_int (ev_value v))] x))
         (all_asg (szf f) l) in
     Hashtbl.replace evtabs a (fn, tb); show_ev a
-  | "const" :: a :: fn :: v :: _ when (try (get_forest fn).lab = EVP with _ -> false) ->
+  | "const" :: a :: fn :: v :: _ when (try (let l = (get_forest fn).lab in l = EVP || l = EVT) with _ -> false) ->
     Hashtbl.remove edges a; Hashtbl.remove evtabs a;
     let f = get_forest fn in
     let l = nat_of_int (nlev f) in
@@ -699,6 +699,46 @@ let rec run toks =
     if fa.range <> RBool || fb.range <> RBool || fr.range <> RBool then raise Unsupported;
     let t = cross_dd (szf fa) (nat_of_int (Array.length fa.sizes)) fa.rule fb.rule fr.rule ta tb in
     set_edge r fn t; show r
+  | "apply" :: r :: fn :: op :: a :: b :: _
+    when Hashtbl.mem evtabs a && Hashtbl.mem evtabs b
+         && (try (get_forest (fst (Hashtbl.find evtabs a))).lab = EVT with _ -> false)
+         && (match op with "plus" | "minus" | "mult" | "div" | "max" | "min" -> true | _ -> false) ->
+    (* element-wise arithmetic on EV* operands (real-valued relations), at table level;
+       values are reals scaled by 64 *)
+    Hashtbl.remove edges r; Hashtbl.remove evtabs r;
+    let fr = get_forest fn in
+    let (fan, ta) = Hashtbl.find evtabs a and (fbn, tb) = Hashtbl.find evtabs b in
+    let fa = get_forest fan and fb = get_forest fbn in
+    if fa.lab <> EVT || fb.lab <> EVT || fr.lab <> EVT then raise Unsupported;
+    if not (same_shape fa fb && same_shape fa fr) || fa.sizes <> fb.sizes || fa.sizes <> fr.sizes then raise Unsupported;
+    let o = binop_of op in
+    if List.exists2 (fun x y -> scalar2_undefined o (z_of_int x) (z_of_int y)) ta tb then raise (Err "DIVIDE_BY_ZERO");
+    let res = List.map2 (fun x y -> int_of_z (scalar2 o (z_of_int 64) (z_of_int 64) (z_of_int x) (z_of_int y))) ta tb in
+    Hashtbl.replace evtabs r (fn, res); show_ev r
+  | "unary" :: r :: fn :: "copy" :: a :: _
+    when (Hashtbl.mem evtabs a && (try (get_forest (fst (Hashtbl.find evtabs a))).lab = EVT with _ -> false))
+         || (try (get_forest fn).lab = EVT with _ -> false) ->
+    (* COPY with an EV* source or target, at table level *)
+    Hashtbl.remove edges r; Hashtbl.remove evtabs r;
+    let fr = get_forest fn in
+    let (fa, ta) =
+      if Hashtbl.mem evtabs a then begin
+        let (fan, tb) = Hashtbl.find evtabs a in
+        let fa = get_forest fan in
+        if fa.lab <> EVT then raise Unsupported;
+        (fa, List.map z_of_int tb)
+      end else begin
+        let (fan, t) = get_edge a in
+        let fa = get_forest fan in
+        if fa.lab <> MT then raise Unsupported;
+        (fa, table (szf fa) fa.rule (nat_of_int (nlev fa)) t)
+      end in
+    if not (same_shape fa fr) || fa.sizes <> fr.sizes then raise Unsupported;
+    let conv_tab = List.map (conv (fr.range = RBool) (z_of_int (scale fa)) (z_of_int (scale fr))) ta in
+    (match fr.lab with
+     | EVT -> Hashtbl.replace evtabs r (fn, List.map int_of_z conv_tab); show_ev r
+     | MT -> set_edge r fn (dd_of_table fr conv_tab); show r
+     | _ -> raise Unsupported)
   | "apply" :: r :: fn :: op :: a :: b :: _
     when Hashtbl.mem evtabs a && Hashtbl.mem evtabs b
          && (match op with "plus" | "minus" | "mult" | "div" | "mod" | "max" | "min"
